@@ -213,7 +213,18 @@ async fn one_round(ctx: &Ctx, out: &mut Outcome, rng: &mut Rng, idx: u64, root: 
         cfg.flush_interval,
         cfg.max_buffer_size_bytes
     );
-    let mut ing = Ingester::new(cfg, store.clone(), meta.clone(), crate::checks::c01::storage_config(), MetricSchema::default_metrics());
+    // a fifth of the rounds: uploads (and, on the object-store backend, catalog writes) take 30 ms - longer than the
+    // fast flush intervals. A slow store is ordinary operation: every request succeeds.
+    let slow = rng.chance(1, 5);
+    if slow {
+        out.count("rounds_with_a_slow_store", 1);
+    }
+    let ing_store: Arc<dyn object_store::ObjectStore> = if slow {
+        Arc::new(util::SlowStore { inner: store.clone(), put_delay: Duration::from_millis(30) })
+    } else {
+        store.clone()
+    };
+    let mut ing = Ingester::new(cfg, ing_store, meta.clone(), crate::checks::c01::storage_config(), MetricSchema::default_metrics());
     if wal_on {
         if let Err(e) = ing.ensure_wal().await {
             out.inconclusive(&format!("round {idx}: ensure_wal: {e}"));
